@@ -118,6 +118,63 @@ async fn pure_waiter_waits_then_unavailable() {
     }
 }
 
+/// ck.poll.waiter_waits / A.checkout.poll.rewake [C03,C14] "every state change that lets a request proceed wakes it": a
+/// request waiting for another request's attempt (and a dialing request listening for a released connection) is polled
+/// k = 1..4 times while nothing is there, each time with a DIFFERENT waker (a future polled by hand or in `select!` and
+/// then moved into a task).  When the connection arrives, the waker of the MOST RECENT poll must be woken - a poll
+/// that answers Pending without handing its waker to the channel loses the wake-up - and the next poll is Ready.
+#[tokio::test]
+async fn pending_poll_registers_latest_waker() {
+    use std::future::Future as _;
+    use std::sync::atomic::{AtomicUsize, Ordering};
+    use std::sync::Arc;
+    struct Count(AtomicUsize);
+    impl futures_util::task::ArcWake for Count {
+        fn wake_by_ref(a: &Arc<Self>) { a.0.fetch_add(1, Ordering::SeqCst); }
+    }
+    for bg in [false, true] {
+        for polls in 1..=4usize {
+            for dialing in [false, true] {
+                let pool: TPool = Pool::new(cfg_bg(bg));
+                let key = example_key();
+                // request A owns the in-flight HTTP/2 attempt (parked in its dial)
+                let (tx, rx) = tokio::sync::oneshot::channel::<MockStream>();
+                let mut a = Box::pin(pool.checkout(key.clone(), true, connector(MockTransport::channel(rx), HttpProtocol::Http2)));
+                assert!(futures_util::poll!(&mut a).is_pending());
+                // request B: a pure waiter on A's attempt (HTTP/2), or a request with its own never-ending dial that
+                // listens for a released connection (HTTP/1.1 to the same origin)
+                let (_txb, rxb) = tokio::sync::oneshot::channel::<MockStream>();
+                let mut b = if dialing {
+                    Box::pin(pool.checkout(key.clone(), false, connector(MockTransport::channel(rxb), HttpProtocol::Http1)))
+                } else {
+                    Box::pin(pool.checkout(key.clone(), true, connector(MockTransport::reusable(), HttpProtocol::Http2)))
+                };
+                let counters: Vec<Arc<Count>> = (0..polls).map(|_| Arc::new(Count(AtomicUsize::new(0)))).collect();
+                let wakers: Vec<_> = counters.iter().map(|c| futures_util::task::waker(c.clone())).collect();
+                for w in &wakers {
+                    assert!(b.as_mut().poll(&mut std::task::Context::from_waker(w)).is_pending(), "nothing there yet");
+                }
+                if dialing {
+                    // a connection for the origin is released
+                    let token = b.token();
+                    pool.inner.lock().push(token, MockSender::single(), pool.as_ref());
+                } else {
+                    // A's attempt completes and is shared
+                    assert!(tx.send(MockStream::reusable()).is_ok());
+                    let got = tokio::time::timeout(Duration::from_secs(2), &mut a).await.expect("owner hangs");
+                    assert!(got.is_ok());
+                }
+                let last = counters.last().unwrap().0.load(Ordering::SeqCst);
+                assert!(last > 0, "lost wake-up: the waker of the request's most recent poll ({polls} pending polls, dialing={dialing}, \
+                    continue_after_preemption={bg}) was not woken when a connection became available (earlier wakers woken: {:?})",
+                    counters.iter().map(|c| c.0.load(Ordering::SeqCst)).collect::<Vec<_>>());
+                let r = b.as_mut().poll(&mut std::task::Context::from_waker(wakers.last().unwrap()));
+                assert!(matches!(r, std::task::Poll::Ready(Ok(_))), "the request is not served at its next poll");
+            }
+        }
+    }
+}
+
 /// ck.poll.connected, ck.new.holds [C02,C04,C06]: a checkout created with a pooled connection hands out that
 /// connection, registered under its own token only
 #[tokio::test]
